@@ -7,7 +7,7 @@ import numpy as np
 from hypothesis import strategies as st
 
 from vlib import gens
-from vlib.core import Prop, Sub, Violation, calling, check
+from vlib.core import unchanged, Prop, Sub, Violation, calling, check
 from vlib.oracles import bvls, lp_dist, lp_extents, lp_margin
 from vlib.systems import whole_number_bounds, Sys, matrix_system, target_rows
 from props.c15_units import twin_system
@@ -21,7 +21,8 @@ def under_system(surplus=(1, 3)):
 def call_range(sv: Sys, B, entry, **kw):
     if entry == "estimator":
         est = sv.make_estimator()
-        return est.range_of_solutions(B, **kw)
+        with unchanged("range", estimator=est):
+            return est.range_of_solutions(B, **kw)
     from dreye.api.convex import range_of_solutions
 
     return range_of_solutions(B, sv.A, **sv.kwargs(), **kw)
